@@ -19,6 +19,8 @@ static char *
 do_crypt (const char *p, const char *s, struct crypt_data *d, int *fatal)
 {
   char *r = 0;
+  /* arbitrary prior contents of the object (a different pattern per object): the answer must not depend on them */
+  memset (d, d == d1 ? 0xA5 : 0x3B, sizeof *d);
   int k = VH_TRY (0);
   if (k == 0)
     {
